@@ -66,7 +66,7 @@ func v1Choices() []v1Choice {
 		{V1Meta{S, M}, nonull, "x:SET+MERGE", false},
 		{V1Meta{B, M}, nonull, "x:MULTISET+MERGE", false},
 		{V1Meta{S, v1Keys("id"), M}, func() GenCfg { c := keyed("id")(); c.AllowNull = false; return c }, "x:SET+Setkeys(id)+MERGE", false},
-		{V1Meta{B, S}, def, "x:MULTISET+SET", false},
+		{V1Meta{B, S}, def, "MULTISET+SET (both options: the set reading wins)", true},
 		{V1Meta{M, P(0.001)}, func() GenCfg { c := precCfg(); c.AllowNull = false; return c }, "x:MERGE+SetPrecision(0.001)", false},
 	}
 }
